@@ -151,6 +151,88 @@ def check_vector(v):
     return {"n": calls, "nt": nt, "bad": bad}
 
 
+GRAPH_RULE = "graph part: one case = (graph shape, two-column dataset, cut set) = one completed behaviour of Graph.tla"
+
+
+def check_graph(v):
+    """One completed behaviour of spec/Graph.tla on real StreamNode / ComputationNode / ReductionNode objects."""
+    from bionumpy import computation_graph as cg
+    nodes, roots, data, cuts = v["nodes"], v["roots"], v["data"], v["cuts"]
+    cols = [[r[0] for r in data], [r[1] for r in data]]
+    bounds = [0]
+    for c in cuts:
+        bounds.append(bounds[-1] + c)
+    bad, calls = [], 0
+    nt = [json.dumps(["graph", v["shape"], data, cuts])] if len(cuts) > 1 else []
+
+    def build():
+        real = []
+        for nd in nodes:
+            op, a = nd["op"], [real[k - 1] for k in nd["args"]]
+            if op in ("s1", "s2"):
+                col = cols[0 if op == "s1" else 1]
+                real.append(cg.StreamNode(iter([np.array(col[x:y], dtype=int) for x, y in zip(bounds[:-1], bounds[1:])])))
+            elif op == "addc":
+                real.append(a[0] + nd["c"])
+            elif op == "add":
+                real.append(a[0] + a[1])
+            elif op == "mul":
+                real.append(a[0] * a[1])
+            elif op == "gtc":
+                real.append(a[0] > nd["c"])
+            elif op == "select":
+                real.append(a[0][a[1]])
+            elif op == "sum":
+                real.append(np.sum(a[0]))
+            elif op == "sumn":
+                real.append(np.mean(a[0]))
+            elif op == "tuple":
+                real.append(None)      # built by compute()
+        return real
+
+    def project(r, val):
+        if r["red"] == "none":
+            return [int(x) for x in np.asarray(val).tolist()]
+        if r["red"] == "sum":
+            return [int(val)]
+        return float(val)
+
+    def expected(i, r):
+        m = v["meaning"][i]
+        if r["red"] == "mean":
+            return None if m[1] == 0 else m[0] / m[1]      # the mean of nothing is not defined by the property
+        return list(m)
+
+    def run(form):
+        real = build()
+        outs = [real[r["node"] - 1] for r in roots]
+        if form == "list":
+            res = cg.compute(outs) if len(outs) > 1 else [cg.compute(outs[0])]
+        elif form == "dict":
+            d = cg.compute({"k%d" % i: o for i, o in enumerate(outs)})
+            res = [d["k%d" % i] for i in range(len(outs))]
+        else:
+            res = cg.compute(tuple(outs))
+        res = list(res)
+        idx = [getattr(x, "_buffer_index", getattr(getattr(x, "_stream", None), "_buffer_index", None)) for x in real]
+        return [project(r, x) for r, x in zip(roots, res)], idx
+    drift = []
+    for form in ("list", "dict", "tuple"):
+        if form != "list" and len(roots) == 1:
+            continue
+        calls += 1
+        want = [expected(i, r) for i, r in enumerate(roots)]
+        if any(w is None for w in want):
+            continue
+        o = outcome(run, form)
+        if o[0] == "err" or o[1][0] != want:
+            bad.append({"what": "compute() of a streamed graph differs from the function of the whole columns", "tags": {"op": "graph", "shape": v["shape"], "form": form, "nchunks": len(cuts)},
+                        "vector": v, "expected": want, "observed": o[1] if o[0] == "err" else o[1][0]})
+        elif [i for i in o[1][1] if i is not None] != [i for i, x in zip(v["idxlog"][-1], o[1][1]) if x is not None]:
+            drift.append({"graph": v["shape"], "form": form, "cuts": cuts, "model_final_index": v["idxlog"][-1], "observed_final_index": o[1][1]})
+    return {"n": calls, "nt": nt, "bad": bad, "drift": drift}
+
+
 def _expand(recs):
     out = {}
     for r in recs:
@@ -176,6 +258,17 @@ def run(ctx):
         vectors += res.vectors
     ctx.sample(vectors[17])
     ctx.absorb(core.pmap(check_vector, vectors, chunk=20))
+    # the computation graph itself (spec/Graph.tla): every shape x dataset x cut set
+    gres = ctx.tlc("MC_Graph", tag="MC_Graph", spec="Spec", constants={"Shapes": "<- AllShapes", "MaxN": 3 if quick else 4, "Vals": [1, 2], "Memo": True},
+                   invariants=["NoAssert", "LockStep", "InStep", "AllLevel", "Final", "Emit"], coverage=True)
+    ctx.require_actions(gres, "MC_Graph", ["Construct", "PullArg", "Advance", "Eval", "IssuePull", "Collect", "Finish"])
+    ctx.sample({k: gres.vectors[5][k] for k in ("shape", "data", "cuts", "result")})
+    ctx.absorb(core.pmap(check_graph, gres.vectors, chunk=50))
+    w = core.run_tlc("MC_Graph", ctx.work, tag="MC_Graph_nomemo", spec="Spec", expect_ok=False,
+                     constants={"Shapes": "<- DiamondOnly", "MaxN": 2, "Vals": [1, 2], "Memo": False}, invariants=["NoAssert"])
+    if not any("NoAssert is violated" in e for e in w.errors):
+        raise core.MachineryFailure("Graph.tla with Memo=FALSE should violate NoAssert (regression witness)")
+    ctx.notes.append("Graph.tla with Memo=FALSE (a shared node re-evaluates when asked twice for one buffer): TLC refutes NoAssert, as expected")
     ctx.exhaustive = True
     return ctx.finish(RULE, assumptions=[
         "entries are sorted by key (precondition of group-by and of the per-chromosome pipelines)",
@@ -188,7 +281,7 @@ def replay(d):
     print("replay of C11 case:", d.get("what"), d.get("tags"))
     v = d["vector"]
     print("  data", v["data"], "cuts", v["cuts"])
-    r = check_vector(v)
+    r = check_graph(v) if d["tags"].get("op") == "graph" else check_vector(v)
     same = [b for b in r["bad"] if b["tags"]["op"] == d["tags"]["op"]]
     for b in same[:3]:
         print("  disagrees:", b["what"], "expected", str(b["expected"])[:200], "observed", str(b["observed"])[:200])
